@@ -100,7 +100,10 @@ def op_strategy(counts=False):
                   st.sampled_from(["sample", "observation", "both",
                                    "detect"])),
     ]
-    return st.one_of(*s)
+    # boolean flags are sometimes spelled as numpy booleans (the result of
+    # any numpy comparison), which are true/false but not `True`/`False`
+    return st.builds(lambda o, f: dict(o, npflag=True) if f else o,
+                     st.one_of(*s), st.sampled_from([False, False, True]))
 
 
 # ---------------------------------------------------------------------------
@@ -230,6 +233,9 @@ def make_other(t, rec_, purpose, axis=None):
 def apply(t, op):
     """Apply `op` to table `t` with the real API."""
     name = op["op"]
+    if op.get("npflag"):
+        op = {k: (np.bool_(v) if isinstance(v, bool) else v)
+              for k, v in op.items()}
     if t.is_empty() and (name not in EMPTY_OK or (
             name == "merge" and (op["sample"], op["observation"]) !=
             ("union", "union"))):
